@@ -371,7 +371,7 @@ def m4_get_transactions(S):
                     _grouped_answer(S, ctx, ob, tag, R, ps, pre, limit_value, exact)
                     continue
                 inc = _included(R, ctx, exact)
-                goals, shape = [], True
+                goals, shape, cursor_ok = [], True, True
                 for p_ in returns(ps):
                     v = p_.value
                     if not (isinstance(v, EnumV) and isinstance(v.disc, int)):
@@ -396,6 +396,12 @@ def m4_get_transactions(S):
                         goals.append(T.implies(p_.cond(), T.iff(T.eq(R["iot"][k].t, 0), bool(isinstance(io, EnumV) and io.disc == R["ctype"].index("Input")))))
                     # the answer is, in scan order, the first `limit` rows that belong to it
                     goals.append(_answer_goal(p_.cond(), inc, got, limit_value))
+                    cur = pag.fields[1]
+                    # (the executor evaluates iterator adaptors eagerly: rows beyond the limit are mapped too, so the cursor is only judged when the limit covers all rows)
+                    if limit_value >= R["nrows"] and not (getattr(cur, "name", None) == f"copy_of_row{got[-1]}_key" if got else (isinstance(cur, ListV) and not cur.items)):
+                        cursor_ok = False
+                if limit_value >= R["nrows"]:
+                    S.prove(ctx, ob, f"{tag}_the_cursor_is_the_key_of_the_last_answered_row", [], bool(cursor_ok))
                 S.prove(ctx, ob, f"{tag}_every_answer_item_carries_the_coordinates_and_hash_of_one_row", [], bool(shape))
                 S.prove(ctx, ob, f"{tag}_the_answer_is_exactly_the_rows_under_the_prefix_that_pass_the_filters_in_scan_order", pre, T.and_(*goals) if goals else False)
                 S.witness(ctx, ob, f"{tag}_reach_two_rows_answered" if limit_value >= 2 else f"{tag}_reach_second_row_answered", pre, T.and_(inc[1], inc[0]) if limit_value >= 2 else T.and_(inc[1], T.not_(inc[0])))
@@ -714,7 +720,7 @@ def m5_get_cells(S):
                     c.append(T.eq(lens[k], T.add(_sym(ctx, r"uf\.len_prefix_\w*"), 16)))
                 c.append(R["passes"][k])
                 inc.append(T.and_(*c))
-            goals, shape = [], True
+            goals, shape, cursor_ok = [], True, True
             for p_ in returns(ps):
                 v = p_.value
                 if not (isinstance(v, EnumV) and isinstance(v.disc, int)):
@@ -739,6 +745,11 @@ def m5_get_cells(S):
                         continue
                     got.append(k)
                 goals.append(_answer_goal(p_.cond(), inc, got, limit_value))
+                cur = pag.fields[1]
+                if limit_value >= R["nrows"] and not (getattr(cur, "name", None) == f"copy_of_row{got[-1]}_key" if got else (isinstance(cur, ListV) and not cur.items)):
+                    cursor_ok = False
+            if limit_value >= R["nrows"]:
+                S.prove(ctx, ob, f"{tag}_the_cursor_is_the_key_of_the_last_answered_row", [], bool(cursor_ok))
             S.prove(ctx, ob, f"{tag}_every_answer_item_is_the_cell_of_one_row_with_its_out_point_coordinates_and_data_iff_asked", [], bool(shape))
             S.prove(ctx, ob, f"{tag}_the_answer_is_exactly_the_rows_under_the_prefix_that_pass_the_filter_in_scan_order", pre, T.and_(*goals) if goals else False)
             if R["nrows"] == 1:
